@@ -652,6 +652,13 @@ func (obj *SparseInt8Matrix) UnmarshalJSON(data []byte) error {
   if len(r.Index) != len(r.Value) {
     return fmt.Errorf("invalid sparse vector")
   }
+  seen := make(map[int]bool)
+  for _, k := range r.Index {
+    if r.Rows < 0 || r.Cols < 0 || k < 0 || k >= r.Rows*r.Cols || seen[k] {
+      return fmt.Errorf("invalid sparse matrix: index %d", k)
+    }
+    seen[k] = true
+  }
   obj.values = NewSparseInt8Vector(r.Index, r.Value, r.Rows*r.Cols)
   obj.rows = r.Rows
   obj.rowMax = r.Rows
